@@ -39,6 +39,11 @@ def artwork(i, n, vb_w, vb_h):
     x = vb_w * (i + 0.5) / (n + 1) - side / 2 + vb_w / (2 * (n + 1))
     y = vb_h * (0.15 + 0.5 * ((i * 7) % 5) / 5)
     d = f"M{x:.3f},{y:.3f} L{x + side:.3f},{y:.3f} L{x + side:.3f},{y + side:.3f} L{x:.3f},{y + side:.3f} Z"
+    if i % 3 == 2:
+        # every third source draws a shape of its own (nothing to share): OT-SVG builds then mix glyphs that share
+        # an outline with glyphs that do not
+        k = 0.3 + 0.1 * (i % 5)
+        d = f"M{x:.3f},{y:.3f} L{x + side:.3f},{y + side * k:.3f} L{x + side * k:.3f},{y + side:.3f} Z"
     col = cols[i % len(cols)]
     return f'<svg xmlns="http://www.w3.org/2000/svg" viewBox="0 0 {vb_w:g} {vb_h:g}"><defs/><path d="{d}" fill="{col}"/></svg>', col
 
